@@ -42,6 +42,7 @@ META = {
     ],
 }
 
+GLOM_PKG_DIR = os.path.dirname(os.path.abspath(glom_pkg.__file__))
 AUDIT_EVENTS = ('exec', 'os.system', 'subprocess.Popen', 'os.exec', 'os.posix_spawn', 'os.spawn', 'os.fork')
 
 
@@ -65,9 +66,11 @@ class AuditWatch:
             if event == 'exec':
                 code = args[0] if args else None
                 detail = getattr(code, 'co_filename', '') or ''
-                # not text supplied by the user: module code of lazily imported libraries (real files) and the
-                # argument parser's own generated dispatch functions (face/sinter)
-                if detail.startswith('<sinter generated') or detail.startswith('<frozen ') or os.path.isfile(detail):
+                # attribute the event to the code under test only when exec()/eval() was CALLED from a frame of the glom
+                # package (cli.py evaluating text it was given).  Library internals - namedtuple class creation during a
+                # lazy import, the argument parser's generated dispatch functions - are called from stdlib / third-party frames.
+                caller = sys._getframe(1)
+                if not os.path.abspath(caller.f_code.co_filename).startswith(GLOM_PKG_DIR + os.sep):
                     return
             self.events.append((event, detail))
 
